@@ -236,15 +236,7 @@ def check_cfg(ctx, fx, cfg):
     if cfg != "bare":
         from props import c08 as _c08
         _c08.check_no_live_eviction(ctx, fx, cfg, "R05.13")
-    # R05.7 closed mailbox -> graceful exit
-    res57 = run_loops(ctx, fx, "R05.7", {"L9", "L13"})
-    for lf, kind, lb, ln in res57:
-        # must-have: the loop can observe the closed mailbox at all (a dequeue that never yields None — e.g.
-        # select_next_some on a fused mailbox — keeps the actor running with no handle left)
-        none_edges = [e for e in nfa.edges_labelled(ln, "sw:Option::None@") if e[1].split("@")[1] in ("next", "mailbox")]
-        # ... or reads it as a stop request (`dequeued.unwrap_or(Payload::Stop)`) and has the Stop exit
-        as_stop = [s_ for s_ in loops.closed_as_stop_sites(fx) if s_[0] in loops.loop_family(fx, lf)] and nfa.edges_labelled(ln, "sw:Payload::Stop")
-        ctx.require(len(none_edges) >= 1 or bool(as_stop), "R05.7", "%s-loop-sees-closed-mailbox@%s" % (kind, cfg), "the loop has no branch for the closed mailbox (None from the dequeue): dropping the last strong handle would not end the actor", fn=lf["def"], site=lf["loc"], detail={"edges": len(none_edges)})
+    check_closed_mailbox_exit(ctx, fx, cfg)
     # R05.8 every strong kind owns a mailbox sender
     for k in own.STRONG_KINDS:
         o = fx.owns_of(k, "adt")
@@ -253,3 +245,15 @@ def check_cfg(ctx, fx, cfg):
             continue
         mb = [a for a in o["atoms"] if own.classify(a)[0] == "mailbox"]
         ctx.require(len(mb) >= 1, "R05.8", inst, "a strong handle kind owns no mailbox sender (it would not keep the actor alive)", fn=k, site=fx.adts[k]["loc"], detail=[a["ty"] for a in mb])
+
+
+def check_closed_mailbox_exit(ctx, fx, cfg, RULE="R05.7"):
+    """closed mailbox -> graceful exit (shared with C16: a released child with no other strong handle notices)"""
+    res57 = run_loops(ctx, fx, RULE, {"L9", "L13"})
+    for lf, kind, lb, ln in res57:
+        # must-have: the loop can observe the closed mailbox at all (a dequeue that never yields None — e.g.
+        # select_next_some on a fused mailbox — keeps the actor running with no handle left)
+        none_edges = [e for e in nfa.edges_labelled(ln, "sw:Option::None@") if e[1].split("@")[1] in ("next", "mailbox")]
+        # ... or reads it as a stop request (`dequeued.unwrap_or(Payload::Stop)`) and has the Stop exit
+        as_stop = [s_ for s_ in loops.closed_as_stop_sites(fx) if s_[0] in loops.loop_family(fx, lf)] and nfa.edges_labelled(ln, "sw:Payload::Stop")
+        ctx.require(len(none_edges) >= 1 or bool(as_stop), RULE, "%s-loop-sees-closed-mailbox@%s" % (kind, cfg), "the loop has no branch for the closed mailbox (None from the dequeue): dropping the last strong handle would not end the actor", fn=lf["def"], site=lf["loc"], detail={"edges": len(none_edges)})
